@@ -351,6 +351,13 @@ func finish(c *Ctx, verifDir string, kf *KnownFile, start time.Time, seed int, e
 			known[k.Key] = k
 		}
 	}
+	// stable order of the report whatever order the rules' maps were walked in
+	sort.SliceStable(c.Obs, func(i, j int) bool {
+		if c.Obs[i].Rule != c.Obs[j].Rule {
+			return c.Obs[i].Rule < c.Obs[j].Rule
+		}
+		return c.Obs[i].Construct < c.Obs[j].Construct
+	})
 	viol := 0
 	discharged := 0
 	var lines []string
